@@ -711,6 +711,20 @@ func runC01(r *Run) {
 						return ok && calleeName(&c.Call) == "sort.Search"
 					})
 					if srch == nil {
+						// a cursor computed some other way (`slices.Index(tree, c.route)`): only constants, parameters and steps
+						// from the cursor itself are anything else than a re-base
+						if _, isC := fr.Val.(*ssa.Const); isC {
+							continue
+						}
+						if _, isP := fr.Val.(*ssa.Parameter); isP {
+							continue
+						}
+						if dependsOn(fr.Val, func(v ssa.Value) bool { return loadOfField(v, "DefaultCtx.indexRoute") }) != nil {
+							continue
+						}
+						if dependsOn(fr.Val, func(v ssa.Value) bool { _, ok := v.(*ssa.Call); return ok }) != nil {
+							r.bad(f.Name()+":rebase-lands-before-first-later-route", r.pos(fr.Instr), "the scan cursor is computed by something else than a search over the routes' positions: looking the current route itself up in the destination bucket answers −1 when it is not a member (a rewriter registered under a literal prefix), the scan restarts at the top and routes registered before the rewriter run as well")
+						}
 						continue
 					}
 					call := srch.(*ssa.Call)
